@@ -1,2 +1,238 @@
-(* Props/C20.v — pinned statements for property C20 (stub; filled below) *)
-From RJ Require Import Base.Outcome Base.F64 Model.Radix Model.Base64 Model.Utf8Codec Model.Esc Model.JsonParse.
+(* Props/C20.v — pinned statements for property C20 (parsing, encoding and hashing
+   builtins compute the standard functions; each decoder inverts its encoder).
+   Only statements closed by [exact lemma], non-vacuity Examples and
+   [Print Assumptions]. *)
+From RJ Require Import Base.Outcome Base.F64.
+From RJ Require Import Model.Radix Proofs.Radix_proofs.
+From RJ Require Model.Base64 Proofs.Base64_arith_proofs Proofs.Base64_proofs.
+From RJ Require Model.Utf8Codec Proofs.Utf8Codec_proofs.
+From RJ Require Model.JsonParse Proofs.JsonParse_proofs.
+From RJ Require Model.Esc Proofs.Esc_proofs.
+Local Open Scope N_scope.
+
+(* ======================= std.parseOctal / std.parseHex ======================= *)
+
+(* no string makes parse_num_radix panic (the byte-slice panic of the snapshot is gone) *)
+Theorem C20_radix_no_panic : forall radix s, radix_ok radix ->
+  is_panic (parse_num_radix radix s) = false.
+Proof. exact radix_no_panic. Qed.
+
+(* "invalid digit c" is answered exactly when the string (after its leading zeros) has a
+   character that is not a digit of the radix, and c is the first such character *)
+Theorem C20_radix_invalid_digit_iff : forall radix s c, radix_ok radix -> s <> [] ->
+  (parse_num_radix radix s = Err (RInvalidDigit c) <->
+   exists pre post, trim_zeros s = pre ++ c :: post /\ Forall (valid radix) pre /\ to_digit radix c = None).
+Proof. exact radix_invalid_digit_iff. Qed.
+
+(* the exact path (at most 32 hexadecimal / 42 octal significant digits): the result is the
+   nearest-even double of the integer the digits denote *)
+Theorem C20_radix_value_exact : forall radix s, radix_ok radix -> s <> [] ->
+  Forall (valid radix) (trim_zeros s) ->
+  (length (trim_zeros s) <= N.to_nat (max_digits_128 radix))%nat ->
+  parse_num_radix radix s = Ok (f_of_N (value radix (trim_zeros s))) /\
+  value radix (trim_zeros s) < 2 ^ 128.
+Proof. exact radix_value_exact. Qed.
+
+Example C20_radix_nonvacuous :
+  radix_ok 16 /\ [102; 70; 48] <> [] /\ Forall (valid 16) (trim_zeros [48; 102; 70; 48]) /\
+  parse_num_radix 16 [48; 102; 70; 48] = Ok (f_of_bits 0x40afe00000000000) /\
+  parse_num_radix 8 [55; 56] = Err (RInvalidDigit 56) /\
+  parse_num_radix 16 (w_panic) = Err (RInvalidDigit 233).
+Proof.
+  split; [right; reflexivity|]. split; [discriminate|]. split.
+  - repeat constructor; unfold valid; vm_compute; discriminate.
+  - vm_compute. repeat split; reflexivity.
+Qed.
+
+(* the snapshot version of the function (kept as parse_num_radix_orig): both expected
+   defects, as kernel-checked witnesses *)
+Theorem C20_radix_orig_panic_refuted :
+  exists s site, parse_num_radix_orig 16 s = Panic site.
+Proof. exists w_panic. eexists. exact radix_orig_panics. Qed.
+
+Theorem C20_radix_orig_long_refuted :
+  exists s x, Forall (valid 16) s /\ parse_num_radix_orig 16 s = Ok x /\ x <> f_of_N (value 16 s).
+Proof.
+  exists w_tie, (f_of_bits 0x47f0000000000002). split; [|split].
+  - repeat constructor; unfold valid; vm_compute; discriminate.
+  - vm_compute. reflexivity.
+  - vm_compute. discriminate.
+Qed.
+
+(* the repaired function on the same inputs *)
+Example C20_radix_long_witness :
+  parse_num_radix 16 w_tie = Ok (f_of_N (value 16 w_tie)) /\
+  parse_num_radix 16 w_tie = Ok (f_of_bits 0x47f0000000000003).
+Proof. vm_compute. split; reflexivity. Qed.
+
+(* full statement for every length (the exact path above is the proved part) *)
+Definition C20_goal_radix_long_is_rne : Prop :=
+  forall radix s, radix_ok radix -> s <> [] -> Forall (valid radix) s ->
+  parse_num_radix radix s =
+    (if f_is_finite (f_of_N (value radix s)) then Ok (f_of_N (value radix s)) else Err ROverflow).
+
+(* ================================ base64 ===================================== *)
+Import Model.Base64 Proofs.Base64_arith_proofs Proofs.Base64_proofs.
+
+Theorem C20_base64_decode_encode : forall bs, bytes bs -> b64_decode (b64_encode bs) = Ok bs.
+Proof. exact decode_encode. Qed.
+
+Theorem C20_base64_string_roundtrip : forall s r, base64_string s = Ok r -> base64_decode r = Ok s.
+Proof. exact decode_encode_string. Qed.
+
+(* the encoding is made of groups of four alphabet characters, the last one possibly ending
+   in one or two '=' ; its length is 4 * ceil(n / 3) *)
+Theorem C20_base64_alphabet_padding : forall bs, bytes bs ->
+  wf_b64 (b64_encode bs) = true /\
+  N.of_nat (length (b64_encode bs)) = 4 * ((N.of_nat (length bs) + 2) / 3).
+Proof. intros bs H. split; [now apply encode_wf | apply encode_length]. Qed.
+
+(* the decoder accepts exactly the well-formed strings, and blames the length exactly when
+   it is not a multiple of four *)
+Theorem C20_base64_rejects_exactly : forall s,
+  is_ok (b64_decode s) = wf_b64 s /\
+  (b64_decode s = Err BBadLength <-> (N.of_nat (length s)) mod 4 <> 0).
+Proof. intros s. split; [apply decode_ok_iff_wf | apply decode_bad_length_iff]. Qed.
+
+Example C20_base64_nonvacuous :
+  bytes [104; 105; 255] /\ b64_encode [104; 105; 255] = [97; 71; 110; 47] /\
+  b64_decode [97; 71; 107; 61] = Ok [104; 105] /\
+  b64_decode [97; 71; 61; 107] = Err (BBadChar 61) /\ b64_decode [97; 71; 107] = Err BBadLength /\
+  base64_string [104; 256] = Err BNotByteChar.
+Proof. split; [repeat constructor|]. vm_compute. repeat split; reflexivity. Qed.
+
+(* ============================ UTF-8 encode / decode ========================== *)
+Import Model.Utf8Codec Proofs.Utf8Codec_proofs.
+
+Theorem C20_utf8_decode_encode : forall s, scalars s -> decode_lossy (encode_utf8 s) = s.
+Proof. exact Utf8Codec_proofs.decode_encode. Qed.
+
+(* the encoder's output is well-formed UTF-8 (the strict decoder reads it back) made of bytes *)
+Theorem C20_utf8_encode_valid : forall s, scalars s ->
+  decode_strict (encode_utf8 s) = Some s /\ Forall (fun b => b < 256) (encode_utf8 s).
+Proof. intros s H. split; [now apply encode_valid | now apply encode_bytes]. Qed.
+
+(* decodeUTF8 is total, agrees with strict decoding wherever that is defined, and always
+   yields scalar values (ill-formed parts become U+FFFD) *)
+Theorem C20_decode_utf8_is_lossy : forall bs,
+  (forall s, decode_strict bs = Some s -> decode_lossy bs = s) /\
+  (Forall (fun b => b < 256) bs -> scalars (decode_lossy bs)).
+Proof. intros bs. split; [intros s; apply decode_is_lossy | apply lossy_scalars]. Qed.
+
+Example C20_utf8_nonvacuous :
+  scalars [233; 26085; 128512; 65] /\
+  encode_utf8 [233; 26085; 128512; 65] = [195; 169; 230; 151; 165; 240; 159; 152; 128; 65] /\
+  decode_strict [237; 160; 128] = None /\ decode_lossy [237; 160; 128] = [65533; 65533; 65533] /\
+  decode_lossy [240; 159; 152; 65] = [65533; 65].
+Proof. split; [repeat constructor|]. vm_compute. repeat split; reflexivity. Qed.
+
+(* ================================ std.parseJson =============================== *)
+Import Model.JsonParse Proofs.JsonParse_proofs.
+
+(* no successfully parsed value contains an object with a repeated key, and the step that
+   would insert one answers RepeatedFieldName *)
+Theorem C20_json_rejects_dup_keys :
+  (forall s v, parse_json s = Ok v -> keys_nodup v) /\
+  (forall lx st fields key v, has_key key fields = true ->
+     unwind lx (SObj fields key :: st) v =
+     UDone (Err {| je_line := lx_line lx; je_col := lx_col lx; je_kind := ERepeatedFieldName key |})).
+Proof. split; [exact result_keys_nodup | exact rejects_dup_key_step]. Qed.
+
+Theorem C20_json_rejects_control_chars : forall s1 c s2, Forall plain s1 -> c < 32 ->
+  parse_json (34 :: s1 ++ c :: s2) =
+  Err {| je_line := 0; je_col := 1 + N.of_nat (length s1); je_kind := EInvalidChrInString |}.
+Proof. exact rejects_control_chars. Qed.
+
+Theorem C20_json_rejects_leading_zero : forall d s, is_digit d = true ->
+  parse_json (48 :: d :: s) = Err {| je_line := 0; je_col := 0; je_kind := EInvalidNumber |} /\
+  parse_json (45 :: 48 :: d :: s) = Err {| je_line := 0; je_col := 0; je_kind := EInvalidNumber |}.
+Proof. intros d s H. split; [now apply rejects_leading_zero | now apply rejects_leading_zero_neg]. Qed.
+
+(* the parser succeeds only with the whole input consumed; anything left after the value
+   (and the whitespace after it) is ExpectedEof *)
+Theorem C20_json_rejects_trailing :
+  (forall lx v, unwind lx [] v = UDone (Ok v) <-> lx_rem lx = []) /\
+  (forall lx v c r, lx_rem lx = c :: r ->
+     unwind lx [] v = UDone (Err {| je_line := lx_line lx; je_col := lx_col lx; je_kind := EExpectedEof |})) /\
+  (forall c s, is_ws c = false ->
+     exists line col, parse_json ([110; 117; 108; 108] ++ c :: s) =
+                      Err {| je_line := line; je_col := col; je_kind := EExpectedEof |}).
+Proof. split; [exact unwind_done_iff|]. split; [exact rejects_trailing_unwind | exact rejects_trailing_null]. Qed.
+
+(* whitespace is exactly TAB, LF, CR, SPACE: skipping stops at every other character, and a
+   document starting with a character that is neither whitespace nor the start of a value
+   is rejected at line 0, column 0 *)
+Theorem C20_json_ws_exact :
+  (forall c r line col, lx_rem (skip_ws line col (c :: r)) = c :: r <-> is_ws c = false) /\
+  (forall c s, is_ws c = false -> value_start c = false ->
+     parse_json (c :: s) = Err {| je_line := 0; je_col := 0; je_kind := EExpectedValue |}).
+Proof. split; [exact ws_exact | exact rejects_non_value_start]. Qed.
+
+Example C20_json_nonvacuous :
+  (* {"a":1,"a":2} *)
+  parse_json [123; 34; 97; 34; 58; 49; 44; 34; 97; 34; 58; 50; 125] =
+    Err {| je_line := 0; je_col := 12; je_kind := ERepeatedFieldName [97] |} /\
+  (* {"a":[1,"x"]} parses and has distinct keys *)
+  (exists v, parse_json [123; 34; 97; 34; 58; 91; 49; 44; 34; 120; 34; 93; 125] = Ok v /\ keys_nodup v) /\
+  Forall plain [97; 233] /\ is_digit 55 = true /\
+  is_ws 160 = false /\ value_start 160 = false /\ is_ws 11 = false /\ value_start 65279 = false /\
+  parse_json [110; 117; 108; 108; 32; 10] = Ok JNull.
+Proof.
+  split; [vm_compute; reflexivity|]. split.
+  - eexists. split; [vm_compute; reflexivity|]. cbn. repeat split; repeat constructor; cbn; intuition discriminate.
+  - split; [repeat constructor; cbv; intuition discriminate|]. vm_compute. repeat split; reflexivity.
+Qed.
+
+(* ================================ escapers ===================================== *)
+Import Model.Esc Proofs.Esc_proofs.
+
+(* a POSIX shell reads std.escapeStringBash(s) back as s *)
+Theorem C20_bash_unescape_escape : forall s, bash_unquote 0 (escape_bash s) = Some s.
+Proof. exact bash_unescape_escape. Qed.
+
+(* no less-than, greater-than, double quote or apostrophe survives, and decoding the five predefined entities gives the input back *)
+Theorem C20_xml_escape_no_specials : forall s,
+  forallb (fun c => negb (xml_special c)) (escape_xml s) = true /\
+  xml_unescape (length (escape_xml s)) (escape_xml s) = s.
+Proof. intros s. split; [apply xml_escape_no_specials | apply xml_unescape_escape; apply le_n]. Qed.
+
+Theorem C20_dollars_doubling : forall s,
+  undouble (escape_dollars s) = s /\
+  count 36 (escape_dollars s) = (2 * count 36 s)%nat /\
+  length (escape_dollars s) = (length s + count 36 s)%nat /\
+  (forall x, x <> 36 -> count x (escape_dollars s) = count x s).
+Proof. intros s. split; [apply dollars_undouble | apply dollars_doubling]. Qed.
+
+Example C20_esc_nonvacuous :
+  escape_bash [97; 39; 98] = [39; 97; 39; 34; 39; 34; 39; 98; 39] /\
+  escape_xml [60; 38; 39] = [38; 108; 116; 59; 38; 97; 109; 112; 59; 38; 97; 112; 111; 115; 59] /\
+  escape_dollars [36; 97; 36] = [36; 36; 97; 36; 36] /\
+  escape_json 31 [26; 34; 233] = [34; 92; 117; 48; 48; 49; 97; 92; 34; 233; 34].
+Proof. vm_compute. repeat split; reflexivity. Qed.
+
+Print Assumptions C20_radix_no_panic.
+Print Assumptions C20_radix_invalid_digit_iff.
+Print Assumptions C20_radix_value_exact.
+Print Assumptions C20_radix_nonvacuous.
+Print Assumptions C20_radix_orig_panic_refuted.
+Print Assumptions C20_radix_orig_long_refuted.
+Print Assumptions C20_radix_long_witness.
+Print Assumptions C20_base64_decode_encode.
+Print Assumptions C20_base64_string_roundtrip.
+Print Assumptions C20_base64_alphabet_padding.
+Print Assumptions C20_base64_rejects_exactly.
+Print Assumptions C20_base64_nonvacuous.
+Print Assumptions C20_utf8_decode_encode.
+Print Assumptions C20_utf8_encode_valid.
+Print Assumptions C20_decode_utf8_is_lossy.
+Print Assumptions C20_utf8_nonvacuous.
+Print Assumptions C20_json_rejects_dup_keys.
+Print Assumptions C20_json_rejects_control_chars.
+Print Assumptions C20_json_rejects_leading_zero.
+Print Assumptions C20_json_rejects_trailing.
+Print Assumptions C20_json_ws_exact.
+Print Assumptions C20_json_nonvacuous.
+Print Assumptions C20_bash_unescape_escape.
+Print Assumptions C20_xml_escape_no_specials.
+Print Assumptions C20_dollars_doubling.
+Print Assumptions C20_esc_nonvacuous.
